@@ -284,6 +284,65 @@ def run_scaled(ctx, n):
                           what="ScaledTolerance is not base * max|value| (one rounding)")
 
 
+def run_scaled_comp(ctx, n):
+    """ScaledTolerance(base, use_component_magnitudes=True) on (rows, k) arrays: one value per component,
+    base * max(|a[:, c]|, |b[:, c]|) with one rounding — float64 and every integer type (unsigned columns without a
+    zero entry, signed columns with negative entries of largest magnitude, values at the type limits)."""
+    rng = ctx.rng
+    lines, lidx, cases = [], [], []
+    for _ in range(n):
+        fam = rng.choice(["f64", "int", "int"])
+        base = rng.choice([1e-12, 1e-6, 2.0 ** -20, 0.01, 0.25, 1.0, 3.0])
+        k = rng.choice([2, 3])
+        rows = rng.choice([1, 2, 5])
+        if fam == "f64":
+            dt = "f64"
+            scale = rng.choice(c01.EXPS[1:-1])
+            a = [c01.rand_float(rng, [scale]) for _ in range(rows * k)]
+            b = [c01.rand_float(rng, [scale, scale - 3]) for _ in range(rows * k)]
+            cls = None
+        else:
+            dt = rng.choice(list(c09.INTS))
+            lo, hi = c09.INTS[dt]
+            def draw():
+                q = rng.random()
+                if q < 0.25:
+                    return rng.choice([hi, hi - 1, max(lo + 1, -hi)])
+                if dt.startswith("u"):
+                    return rng.randint(1, min(hi, 200))          # no zero: the smallest entry of a column is positive
+                return rng.randint(max(lo + 1, -100), min(hi, 100))
+            a = [draw() for _ in range(rows * k)]
+            b = [draw() for _ in range(rows * k)]
+            if not dt.startswith("u") and rng.random() < 0.1:
+                a[rng.randrange(len(a))] = lo                     # type minimum: the class of finding F13
+            cls = "F13" if (not dt.startswith("u") and (lo in a or lo in b)) else None
+            sg = 0 if dt.startswith("u") else 1
+            lines.append(f"scaledcompint {sg} {dt[1:]} {f2u(base)} {k} {len(a)} {' '.join(map(str, a))} "
+                         f"{len(b)} {' '.join(map(str, b))}")
+            lidx.append(len(cases))
+        A = {"dt": dt, "shape": [rows, k], "v": a}; B = {"dt": dt, "shape": [rows, k], "v": b}
+        got = impl_scaled(base, A, B, comp=True)
+        want = []
+        for c in range(k):
+            m = max(max(abs(x) for x in a[c::k]), max(abs(x) for x in b[c::k]))
+            want.append(rn64(Fraction(base) * Fraction(float(m))))
+        cases.append([{"base": base, "a": A, "b": B, "per_component": True}, got, want, cls, None])
+    if ctx.driver_ok and lines:
+        for j, r in zip(lidx, ctx.lean(lines)):
+            cases[j][4] = r
+    for case, got, want, cls, r in cases:
+        gl = got if isinstance(got, str) else [float(x) for x in np.asarray(got, dtype=np.float64).reshape(-1)]
+        ctx.case(("scaledcomp", case["base"], case["a"]["dt"], tuple(case["a"]["v"]), tuple(case["b"]["v"])), nontrivial=True,
+                 tags=["scaled-comp", "scaled-comp-" + case["a"]["dt"]], sample=None)
+        if r is not None and "model" in r and r.get("hyp") == "1" and not isinstance(gl, str):
+            iu = ",".join("none" if np.isinf(x) else str(f2u(x)) for x in gl)
+            if r["model"] != iu:
+                ctx.mismatch(case, iu, r["model"], what="per-component ScaledTolerance values impl vs model")
+        if isinstance(gl, str) or gl != want:
+            ctx.violation(dict(case, law="scaled"), str(gl), str(want), cls=cls,
+                          what="per-component ScaledTolerance is not base * max|component| (one rounding)")
+
+
 def run_history(ctx, n):
     """one predicate object reused across fields of different magnitude / dtype vs fresh objects"""
     rng = ctx.rng
@@ -524,6 +583,7 @@ def run(ctx):
     run_floats(ctx, ctx.scale(1500, 150000))
     run_ints(ctx, ctx.scale(400, 30000))
     run_scaled(ctx, ctx.scale(600, 50000))
+    run_scaled_comp(ctx, ctx.scale(300, 20000))
     run_history(ctx, ctx.scale(150, 10000))
     run_shape_mix(ctx, ctx.scale(300, 20000))
     run_cli_chains(ctx, n_vtu=ctx.scale(16, 70), rounds=ctx.scale(1, 12))
@@ -538,6 +598,15 @@ def replay_witness(ctx, entry):
         v1 = predio.run_impl(w["kind"], w["t1"][0], w["t1"][1], w["a"], w["b"])
         v2 = predio.run_impl(w["kind"], w["t1"][0], w["t1"][1], w["b"], w["a"])
         return v1 != v2, f"(a,b)={v1} (b,a)={v2}"
+    if w["law"] == "scaled" and w.get("per_component"):
+        k = w["a"]["shape"][1]
+        got = impl_scaled(w["base"], w["a"], w["b"], comp=True)
+        want = []
+        for c in range(k):
+            m = max(max(abs(x) for x in w["a"]["v"][c::k]), max(abs(x) for x in w["b"]["v"][c::k]))
+            want.append(rn64(Fraction(w["base"]) * Fraction(float(m))))
+        gl = got if isinstance(got, str) else [float(x) for x in np.asarray(got, dtype=np.float64).reshape(-1)]
+        return (isinstance(gl, str) or gl != want), f"per-component ScaledTolerance={gl} expected {want}"
     if w["law"] == "scaled":
         got = impl_scaled(w["base"], w["a"], w["b"])
         m = max(max(abs(x) for x in w["a"]["v"]), max(abs(x) for x in w["b"]["v"]))
